@@ -51,12 +51,12 @@ META["C14"] = {
 }
 ENGINES.append({"name": "drain-replay", "path": "tools/draincheck.py", "serves_properties": ["C14"],
                 "kind_free_text": "TLC model check + simulation of spec/Drain.tla; schedules replayed by harness/kit (gate scheduler over verifhook points) in harness/otter/verif_drain_test.go"})
-HOOK_COMMITS.extend(["3f17fd0", "90d5fc6", "7f02039", "92eaa79", "583b2ee"])
+HOOK_COMMITS.extend(["3f17fd0", "90d5fc6", "7f02039", "92eaa79", "583b2ee", "8514aa9"])
 
 _WR_TEXT = {
     "C04": "after quiescence and one maintenance run the weight of the entries present is within the maximum, nothing heavier than the maximum is retained, zero-weight entries are never evicted (WriteReplay.tla: Bound; real cache: WRAudit.tla over the audit record); Policy.tla: Bound / MaximaOK with the real policy replayed on it (PolicyTrace.tla); a read that extends a deadline while the expiration sweep runs (SweepHist.tla)",
     "C05": "after quiescence the table, the three policy deques with their running totals, the timer wheel and the public views (WeightedSize, EstimatedSize, All, Hottest, Coldest) agree (WriteReplay.tla: Agree; real cache: WRAudit.tla); the eviction policy object itself is modelled at pointer level (Policy.tla: WellFormed, Agree, MaximaOK incl. the hill climber and tasks applied out of order) and every call on the real policy is replayed on that model (PolicyTrace.tla)",
-    "C06": "sequential fold: the atomic and the asynchronous handler receive the same bag of (key, value, cause) in every call, operation-caused events are exactly the predicted ones (incl. Expiration for writes over / removals of expired-unswept entries), all 12 layouts; concurrent: values written = values present + values reported; each removed value reaches OnAtomicDeletion and OnDeletion exactly once with the same cause; per key the atomic handler sees removals in installation order (WriteReplay.tla: Once/NeverTwice; real cache: WRAudit.tla)",
+    "C06": "sequential fold: the atomic and the asynchronous handler receive the same bag of (key, value, cause) in every call, operation-caused events are exactly the predicted ones (incl. Expiration for writes over / removals of expired-unswept entries), all 12 layouts; concurrent: values written = values present + values reported; each removed value reaches OnAtomicDeletion and OnDeletion exactly once with the same cause; per key the atomic handler sees removals in installation order (WriteReplay.tla: Once/NeverTwice; real cache: WRAudit.tla); expiration sweep racing a read that extends the deadline: ExpireRace.tla (Truthful, Once, Tracked, Swept; the protocol as found must violate Truthful) and its counterexample as a gated schedule on the real cache (SweepHist.tla: a cache that is not above its maximum never reports Overflow)",
 }
 for _p in ("C04", "C05", "C06"):
     CHECKS[_p] = seqcheck.run      # sequential fold + the concurrent audit (wrcheck, merged by seqcheck.finish)
